@@ -59,6 +59,8 @@ class C06(props.Prop):
             text=text)
         spec['observe_output'] = True
         spec['io_lines'] = True
+        # the temporary directory may be on another file system ($TMPDIR)
+        spec['xdev'] = rng.random() < 0.5
         cap = 40 if tier == 'quick' else 400
         return {
             'prop': 'C06',
